@@ -197,7 +197,7 @@ Failing(a, ev) ==
   \cup (IF IsOpaqueUpd(a)
         THEN (IF ~ Raised(ev) /\ Len(ev.store) = Len(store) /\ ev.res # ChangedCount(a, ev)
               THEN {[clause |-> "result", expected |-> ChangedCount(a, ev)]} ELSE {})
-        ELSE (IF RaisesOK(a, ev) /\ ~ Raised(ev) /\ ev.res # Result(a, store)
+        ELSE (IF RaisesOK(a, ev) /\ ~ Raised(ev) /\ ev.res # Result(a, store) /\ ~ (a.op = "repr" /\ ev.res = NoneV)
               THEN {[clause |-> "result", expected |-> Result(a, store)]} ELSE {}))
   \cup (IF IsOpaqueUpd(a)
         THEN (IF (Raised(ev) /\ ev.store # store) \/ (~ Raised(ev) /\ ~ FrameOK(a, ev))
